@@ -348,12 +348,12 @@ func c01Sizes(r *run.Run) {
 	sweeps := []struct {
 		name string
 		n    int
-	}{{"copyright length", 601}, {"trademark length with a 200-character copyright", 200}, {"family name length", 120}, {"extra glyphs", 300}, {"stem hint pairs on a glyph with its own width (CFF)", 100}, {"contours (0..2) and instruction bytes (0..6) of a simple glyph (glyf)", 21}}
+	}{{"copyright length", 601}, {"trademark length with a 200-character copyright", 200}, {"family name length", 120}, {"extra glyphs", 300}, {"stem hint pairs on a glyph with its own width (CFF)", 100}, {"contours (0..2) and instruction bytes (0..6) of a simple glyph (glyf)", 21}, {"glyphs, all of them blank", 7}}
 	if !r.Quick() {
 		sweeps[0].n, sweeps[3].n = 2001, 1200
 	}
 	r.Explore(explore.Config{Name: "C01.sizes", Deadline: r.PartDeadline(0.3)},
-		fmt.Sprintf("size sweeps on a 6-glyph base font of each outline kind, every value in the range: copyright length 0..%d, trademark length 0..%d next to a 200-character copyright, family name length 1..%d, 0..%d extra glyphs with generated names/CIDs, 0..99 stem hint pairs (two thirds horizontal) on a glyph with its own width, a simple TrueType glyph with 0..2 contours x 0..6 instruction bytes; same round-trip and fixed-point oracle as C01.generated", sweeps[0].n-1, sweeps[1].n-1, sweeps[2].n, sweeps[3].n-1),
+		fmt.Sprintf("size sweeps on a 6-glyph base font of each outline kind, every value in the range: copyright length 0..%d, trademark length 0..%d next to a 200-character copyright, family name length 1..%d, 0..%d extra glyphs with generated names/CIDs, 0..99 stem hint pairs (two thirds horizontal) on a glyph with its own width, a simple TrueType glyph with 0..2 contours x 0..6 instruction bytes, fonts of 1..6 glyphs that are all blank; same round-trip and fixed-point oracle as C01.generated", sweeps[0].n-1, sweeps[1].n-1, sweeps[2].n, sweeps[3].n-1),
 		func(c *explore.Ctx) {
 			kind := c.Choose(3, "outline kind")
 			sw := c.Choose(len(sweeps), "sweep")
@@ -434,6 +434,35 @@ func c01Sizes(r *run.Run) {
 				contours := [][]gen.Pt{{{0, 0, true}, {300, 0, true}, {150, 400, true}}, {{10, 10, true}, {20, 10, true}, {15, 30, false}}}[:v%3]
 				o.Glyphs[len(o.Glyphs)-1] = gen.SimpleGlyf(contours, []byte{0xB0, 0x01, 0xB0, 0x02, 0x21, 0x21}[:v/3])
 				f.Outlines = &o
+			}
+			if sw == 6 {
+				// a font without any outline (the glyf table of such a font is empty)
+				if v == 0 {
+					c.Skip("no glyph")
+				}
+				switch ol := f.Outlines.(type) {
+				case *glyf.Outlines:
+					o := *ol
+					o.Glyphs = make(glyf.Glyphs, v)
+					o.Widths = append([]funit.Int16{}, ol.Widths[:v]...)
+					if o.Names != nil {
+						o.Names = append([]string{}, ol.Names[:v]...)
+					}
+					f.Outlines = &o
+				case *cff.Outlines:
+					o := *ol
+					o.Glyphs = nil
+					for i := 0; i < v; i++ {
+						o.Glyphs = append(o.Glyphs, cff.NewGlyph(ol.Glyphs[i].Name, ol.Glyphs[i].Width))
+					}
+					if ol.IsCIDKeyed() {
+						o.GIDToCID = append([]cid.CID{}, ol.GIDToCID[:v]...)
+					} else {
+						o.Encoding = cff.StandardEncoding(o.Glyphs)
+					}
+					f.Outlines = &o
+				}
+				f.CMapTable, f.Gsub, f.Gpos, f.Gdef = nil, nil, nil, nil
 			}
 			desc := fmt.Sprintf("%s, %s = %d", gen.KindNames[kind], sweeps[sw].name, v)
 			c.Sample(func() any { return desc })
